@@ -489,6 +489,17 @@ func (e *SpecEnv) selector(n *ast.SelectorExpr) (SV, error) {
 		return SV{}, err
 	}
 	obj, path, _ := types.LookupFieldOrMethod(xv.Typ, true, e.fn.Pkg.Pkg, n.Sel.Name)
+	if obj == nil {
+		// an unexported field of a type from another package (contracts may name the representation they specify,
+		// e.g. the token cursor of the Dispenser embedded in a Controller): look it up from the packages of the
+		// struct types reachable through embedding
+		for _, p := range embeddedPkgs(xv.Typ, 0) {
+			if o, pa, _ := types.LookupFieldOrMethod(xv.Typ, true, p, n.Sel.Name); o != nil {
+				obj, path = o, pa
+				break
+			}
+		}
+	}
 	fld, ok := obj.(*types.Var)
 	if !ok {
 		return SV{}, fmt.Errorf("%s is not a field (methods must be called)", n.Sel.Name)
@@ -724,6 +735,22 @@ func (e *SpecEnv) call(n *ast.CallExpr) (SV, error) {
 			rv, err := e.eval(n.Args[1])
 			if err != nil {
 				return SV{}, err
+			}
+			if strings.HasPrefix(spec, "map:") {
+				// unchanged_except("map:<map type>", m): every map of that type other than m has its old contents and domain
+				var parts []string
+				for _, pre := range []string{"MV:", "MD:"} {
+					k := pre + strings.TrimPrefix(spec, "map:")
+					h1, ok1 := e.st.heap[k]
+					h0, ok0 := e.old.heap[k]
+					if !ok1 || !ok0 {
+						return SV{}, fmt.Errorf("unchanged_except: no map heap %s", k)
+					}
+					w.n++
+					xv := fmt.Sprintf("x_q%d", w.n)
+					parts = append(parts, fmt.Sprintf("(forall ((%s Int)) (=> (not (= %s %s)) (= (select %s %s) (select %s %s))))", xv, xv, rv.T.S, h1.S, xv, h0.S, xv))
+				}
+				return SV{T("(and "+strings.Join(parts, " ")+")", "Bool"), tBoolT}, nil
 			}
 			for k, h1 := range e.st.heap {
 				if _, _, isF := fldParts(k); isF && heapKeyMatches(k, spec) {
@@ -1111,4 +1138,26 @@ func describe(x ast.Expr) string {
 	var sb strings.Builder
 	ast.Fprint(&sb, token.NewFileSet(), x, nil)
 	return sb.String()
+}
+
+// embeddedPkgs lists the packages that define t and the struct types embedded in it (transitively).
+func embeddedPkgs(t types.Type, depth int) []*types.Package {
+	var out []*types.Package
+	if depth > 4 {
+		return out
+	}
+	if p, ok := t.Underlying().(*types.Pointer); ok {
+		t = p.Elem()
+	}
+	if n, ok := t.(*types.Named); ok && n.Obj().Pkg() != nil {
+		out = append(out, n.Obj().Pkg())
+	}
+	if st, ok := t.Underlying().(*types.Struct); ok {
+		for i := 0; i < st.NumFields(); i++ {
+			if st.Field(i).Embedded() {
+				out = append(out, embeddedPkgs(st.Field(i).Type(), depth+1)...)
+			}
+		}
+	}
+	return out
 }
